@@ -113,6 +113,7 @@ static int runC17(const std::string& tier, const std::string& scratch, const std
         auto heavy = [&](size_t k, long x) { return (L[k].dim == "frames" || L[k].dim == "last_frame") ? (x > 1000 ? 2 : 0) : ((L[k].dim == "points" || L[k].dim == "channels") ? 1 : 0); };
         if (heavy(i, v) + heavy(j, w) >= 3) continue;                                              // frames x points/channels at the limits: > 10^7 points, not built
         if ((L[i].dim == "frames" || L[i].dim == "last_frame") && (L[j].dim == "frames" || L[j].dim == "last_frame")) continue;   // the same knob
+        if ((L[i].dim == "param_blocks" && L[j].dim == "param_section_bytes") || (L[i].dim == "param_section_bytes" && L[j].dim == "param_blocks")) continue;   // the same knob (length of the parameter section)
         if ((L[i].dim == "param_blocks" && L[j].dim == "record_bytes") || (L[i].dim == "int_max" && L[j].dim == "int_min")) { }
         cases.push_back({{{(int)i, v}, {(int)j, w}}});
     }
@@ -150,6 +151,7 @@ static int runC17(const std::string& tier, const std::string& scratch, const std
             std::string kind = outc.substr(0, outc.find(':')); outcomes[(allWithin ? "within:" : "beyond:") + kind]++; done++;
             if (samples.size() < 8 && i % 9 == 0) samples.push_back(caseText(cs, L) + " -> " + outc);
             bool bad = false;
+            if (kind == "harness") { outcomes["not-constructible"]++; return; }   // the two requested sizes cannot be met together by the builder (e.g. exactly 127 blocks AND a 64 KiB record): no case
             if (kind == "roundtrip") bad = false; else if (kind == "save_throws" || kind == "build_throws") bad = allWithin; else bad = true;   // reload_throws / reload_differs / crash: silent corruption or lost in-limit content
             if (bad && cs.parts.size() == 1) badSingles.insert(caseText(cs, L));
             if (bad) { std::string sig = dims + "/" + (allWithin ? lv : std::string("beyond-limit")) + "/" + (allWithin ? outc : kind); auto it = viol.find(sig); if (it == viol.end()) viol[sig] = {sig, caseText(cs, L), detail, 1, cs.parts.size() > 1, i}; else it->second.count++; }
